@@ -48,6 +48,10 @@ pub fn alphabet() -> Alphabet {
     let mut doubled = f0.clone();
     doubled.extend_from_slice(&f0);
     frames.extend([trailer, padded, doubled, Vec::new(), vec![0u8; 14]]);
+    // 200 more decodable frames (indices 21..=220) for bursts of expirations
+    for i in 0..200u32 {
+        frames.push(df11(5, 0x710000 + 0x0101 * i, 0));
+    }
     let decodable = frames.iter().map(|f| Message::from_bytes((f, 0)).is_ok()).collect();
     Alphabet { frames, decodable }
 }
@@ -647,6 +651,19 @@ pub fn run(ctx: &Ctx, rep: &Report) {
                 }
             }
         }
+        // bursts of expirations: k groups (k on either side of 32, 64, 128; 200) open 1 ms apart, one arrival after a gap
+        // closes them all at once, and the very next arrival (1 ms later, the other receiver) is the newest / the
+        // middle / the oldest of those frames again: it must open a group of its own
+        for k in [31usize, 32, 33, 63, 64, 65, 66, 127, 128, 129, 200] {
+            for again in [k - 1, k / 2, 0] {
+                let mut h: Vec<Arr> = (0..k).map(|i| Arr { frame: 21 + i as u8, rx: 0, ms: i as u64 }).collect();
+                h.push(Arr { frame: 0, rx: 0, ms: 10_000 });
+                h.push(Arr { frame: 21 + again as u8, rx: 1, ms: 10_001 });
+                h.push(Arr { frame: 1, rx: 0, ms: 20_000 });
+                h.push(Arr { frame: 2, rx: 0, ms: 30_000 });
+                fam.push(h);
+            }
+        }
         let mut oc = [0u64; 8];
         let mut c = 0u64;
         for h in &fam {
@@ -659,8 +676,8 @@ pub fn run(ctx: &Ctx, rep: &Report) {
         }
         total += c;
         nontriv += c;
-        rep.part("fan-out: up to 12 groups open at once", c, json!({"histories": fam.len()}));
-        bound.push(format!("fan-out: {} histories with 1..=12 distinct frames open at once", fam.len()));
+        rep.part("fan-out: up to 12 groups open at once; bursts of up to 200 expirations at one arrival", c, json!({"histories": fam.len()}));
+        bound.push(format!("fan-out: {} histories with 1..=12 distinct frames open at once and bursts of 31..200 expirations at one arrival", fam.len()));
     }
     // wall-clock silence: every history of two or three arrivals over two frames (the first one is frame 0) with
     // non-decreasing stamps from {0, 10, 1000, 2000} ms, a real pause of 1.2 s (thorough: also 3.5 s) after the first
